@@ -10,6 +10,7 @@ func init() {
 		ruleTablesLeafList(c, r)
 		ruleFloatFmt(c, r, c.funcsInScope(func(s string) bool { return s == "ygot/render.go" }, libPkgs))
 		ruleEnumLib(c, r)
+		ruleReflectSign(c, r, c.funcsInScope(func(s string) bool { return s == "ygot/render.go" || s == "ytypes/util_types.go" }, libPkgs), 4)
 	})
 	register("C02", func(c *Ctx, r *Report) {
 		r.Decides("gNMI scalar wrapper produced per YANG kind is accepted by the decoder; every key kind has a string form and both parsers; every leaf-list element kind is encodable.",
@@ -18,6 +19,7 @@ func init() {
 		ruleTablesKeys(c, r)
 		ruleTablesLeafList(c, r)
 		ruleSignConv(c, r, c.anchored("C02"), 1)
+		ruleReflectSign(c, r, c.funcsInScope(func(s string) bool { return s == "ygot/render.go" || s == "ytypes/util_types.go" }, libPkgs), 4)
 		ruleWildcardOpt(c, r)
 		ruleReflectString(c, r, c.anchored("C02"))
 	})
@@ -26,6 +28,7 @@ func init() {
 			"value-level round-trip of each key string (formatting precision, escaping is C08).")
 		ruleTablesKeys(c, r)
 		ruleSignConv(c, r, c.anchored("C16"), 0)
+		ruleReflectSign(c, r, c.funcsInScope(func(s string) bool { return s == "ygot/render.go" || s == "ytypes/util_types.go" }, libPkgs), 4)
 		ruleWildcardOpt(c, r)
 		ruleReflectString(c, r, c.anchored("C16"))
 	})
@@ -48,6 +51,7 @@ func init() {
 		r.Rule("R-MAPRANGE-RETURN", "a range over a map returns at most one distinct result from inside the loop (otherwise the result depends on iteration order)", 3)
 		ruleMapRangeReturnFile(c, r, "util", "gnmi.go")
 		ruleWildcards(c, r)
+		ruleKeyMapLookup(c, r, "util", "gnmi.go")
 	})
 }
 
@@ -71,6 +75,7 @@ func init() {
 		r.Decides("the guards of ygot.diff (delete ⇔ absent from modified; update of a common path ⇔ !reflect.DeepEqual; additions ⇔ absent from original ∧ no IgnoreAdditions), PathToString-keyed leaf maps, cloned parent paths, and no append onto slices the diff code does not own (paths of one leaf never share a backing array with another).",
 			"apply-back equality Diff(a,b) applied to a gives b; atomic ordering; C08's injectivity of PathToString is imported, not re-decided here.")
 		ruleDiffGuards(c, r)
+		ruleDiffSkip(c, r)
 		ruleAppendAlias(c, r, c.anchored("C03"), 40)
 	})
 }
@@ -116,6 +121,7 @@ func init() {
 		ruleParamStore(c, r, fs, 150)
 		ruleAppendAlias(c, r, fs, 100)
 		ruleGnmidiffRoot(c, r)
+		ruleCopyAlias(c, r)
 	})
 }
 
@@ -158,6 +164,7 @@ func init() {
 		ruleRFC7951Encodings(c, r)
 		ruleTablesJSON(c, r)
 		ruleSignConv(c, r, c.anchored("C19"), 0)
+		ruleReflectSign(c, r, c.funcsInScope(func(s string) bool { return s == "ygot/render.go" }, libPkgs), 3)
 	})
 }
 
@@ -291,6 +298,7 @@ func init() {
 		rulePathTemplates(c, r)
 		rulePathKeyEntries(c, r)
 		ruleTablesKeys(c, r)
+		ruleReflectSign(c, r, c.funcsInScope(func(s string) bool { return s == "ygot/render.go" }, libPkgs), 3)
 	})
 }
 
@@ -310,5 +318,7 @@ func init() {
 		ruleCompileTemplates(c, r)
 		ruleCompileCorpus(c, r)
 		ruleFieldKinds(c, r)
+		ruleChoiceTransparent(c, r)
+		ruleSchemaEmbed(c, r)
 	})
 }
